@@ -85,8 +85,13 @@ pub fn control(share_id: u32, src: u16, action: u16, grant_id: u16, control_id: 
 }
 
 pub fn font_map(share_id: u32, src: u16) -> Vec<u8> {
+    font_map_flags(share_id, src, 3)
+}
+
+/// font map with other mapFlags than FONTMAP_FIRST | FONTMAP_LAST (a client does not interpret them)
+pub fn font_map_flags(share_id: u32, src: u16, map_flags: u16) -> Vec<u8> {
     let mut w = W::new();
-    w.u16le(0).u16le(0).u16le(3).u16le(4);
+    w.u16le(0).u16le(0).u16le(map_flags).u16le(4);
     share_data(share_id, src, PDUTYPE2_FONTMAP, &w.0)
 }
 
